@@ -207,7 +207,9 @@ class CommonRD:
             if set_lt is not None and self.lt != set_lt:
                 actual_change = True
                 self.lt = set_lt
-            if set_base is not None and (is_initial or self.base != set_base):
+            if set_base is not None and (
+                is_initial or self.base != set_base or not self.base_is_explicit
+            ):
                 actual_change = True
                 self.base = set_base
                 self.base_is_explicit = True
